@@ -1,9 +1,33 @@
 package uu
 
+import "math/rand"
+
+// vecSource feeds the replay vector's draws to the real generator when a counterexample is replayed natively.
+type vecSource struct{ n int }
+
+func (s *vecSource) Int63() int64 {
+	s.n++
+	if s.n == 1 {
+		return int64(vU64("rand1") &^ (1 << 63))
+	}
+	return int64(vU64("rand2") &^ (1 << 63))
+}
+func (s *vecSource) Seed(int64) {}
+
+// draw calls RandomID; natively the generator is first replaced by one that returns the recorded draws.
+func draw() ID {
+	if vNative() {
+		randomMutex.Lock()
+		random = rand.New(&vecSource{})
+		randomMutex.Unlock()
+	}
+	return RandomID()
+}
+
 //verif:harness C19 quick
 func H_C19_masks() {
 	vRecordGlobals() // reads and writes of package variables take part in the lock-discipline query
-	id := RandomID()
+	id := draw()
 	vAssert("version-4", id.Version() == 4)
 	vAssert("variant-1", id.Variant() == 1)
 	// RFC 4122 field positions written independently of the accessors
@@ -15,7 +39,7 @@ func H_C19_masks() {
 //
 //verif:harness C19 quick k=0..63
 func H_C19_freeBitHigher(k int) {
-	id := RandomID()
+	id := draw()
 	if k >= 12 && k <= 15 {
 		return
 	}
@@ -26,7 +50,7 @@ func H_C19_freeBitHigher(k int) {
 
 //verif:harness C19 quick k=0..61
 func H_C19_freeBitLower(k int) {
-	id := RandomID()
+	id := draw()
 	b := id.Lower>>uint(k)&1 == 1
 	vReach("bit-can-be-1", b)
 	vReach("bit-can-be-0", !b)
@@ -36,7 +60,7 @@ func H_C19_freeBitLower(k int) {
 //
 //verif:harness C19 thorough k=0..126
 func HT_C19_adjacentBits(k int) {
-	id := RandomID()
+	id := draw()
 	bit := func(i int) bool {
 		if i < 64 {
 			return id.Lower>>uint(i)&1 == 1
